@@ -308,7 +308,31 @@ def rule_div_wrap(run):
     run.end()
 
 
-RULES = [rule_rows, rule_siblings, rule_intarith, rule_ext, rule_widths, rule_literals, rule_castmatrix, rule_multi_index, rule_resize, rule_views, rule_tracer, rule_no_lookthrough, rule_ctor_domain, rule_div_wrap]
+def rule_delegation(run):
+    run.begin(
+        "C09.deleg",
+        "operators of a qualified object delegate to the SAME operator of the wrapped value: every TypeQualifier method of "
+        "the form `self._value.<m>(_decay(other))` names its own method (a reflected operator that calls the forward one "
+        "swaps the operands: result type and width of `const <op> signal` are those of `signal <op> const`)",
+        floor=20,
+    )
+    tq = run.idx.mod("cohdl/_core/_type_qualifier.py")
+    n = 0
+    for q, f in tq.functions.items():
+        if not q.startswith("TypeQualifier.") or ".<locals>." in q:
+            continue
+        own = q.split(".", 1)[1].split("#")[0]
+        for c in walk_local(f.node):
+            if isinstance(c, ast.Call) and isinstance(c.func, ast.Attribute) and dotted(c.func.value) == "self._value" and c.args and isinstance(c.args[0], ast.Call) and dotted(c.args[0].func) == "_decay":
+                m = c.func.attr
+                if not (m.startswith("__") or m.startswith("_cohdl_")):
+                    continue
+                n += 1
+                run.ob(m == own, f"TypeQualifier.{own}", file=tq.rel, line=c.lineno, detail="delegates-to-own-operator", expected=f"self._value.{own}(_decay(other))", found=src(c)[:70], sample=n == 1)
+    run.end()
+
+
+RULES = [rule_rows, rule_siblings, rule_intarith, rule_ext, rule_widths, rule_literals, rule_castmatrix, rule_multi_index, rule_resize, rule_views, rule_tracer, rule_no_lookthrough, rule_ctor_domain, rule_div_wrap, rule_delegation]
 LEVEL = "other"
 EXPLANATION = (
     "Structural agreement between the compile-time (folding) path and the run-time path of primitive operators: "
